@@ -114,6 +114,9 @@ func c01Dispatch(p *Prog, r *Report, e *engine) {
 	r.Check(okPath, "D1-dispatch", re.key+":input-path", p.Pos(e.extractCall.Pos()), "ScanInput.Path = path", "ScanInput.Path is not the path of the file being dispatched")
 	r.Check(okReader, "D1-dispatch", re.key+":input-reader", p.Pos(e.extractCall.Pos()), "ScanInput.Reader = Open(path)", "ScanInput.Reader is not the result of opening the path being dispatched")
 	checkFileAPI(p, r, e, "D1-fileapi")
+	extractorLoopRule(p, r, e, "D2-once")
+	r.Rule("D2-size", "dispatch only if limit off or lazy-stat size of the opened file ≤ limit (shared with C10)")
+	c10Size(p, r, e)
 
 	// D2: dispatch call not in an inner loop of runExtractor; one dispatch per iteration
 	r.Check(!inLoop(e.extractCall.Block()), "D2-once", re.key+":extract-not-in-loop", p.Pos(e.extractCall.Pos()), "Extract call is not inside a loop", "Extract is invoked inside a loop of the dispatch function: a file can be extracted more than once")
